@@ -451,8 +451,21 @@ func ruleC13NoOtherWrites(c *Ctx) {
 		if f.Pkg == nil || f.Pkg.Pkg.Path() != pkgPersist {
 			continue
 		}
+		if _, _, isFwd := sqlForwarder(f); isFwd {
+			continue // judged at its call sites, where the statement is chosen
+		}
 		allInstrs(f, func(i ssa.Instruction) {
 			g := staticCallee(i)
+			if qi, _, isFwd := sqlForwarder(g); isFwd {
+				if _, isCall := i.(*ssa.Call); isCall && qi < len(callOf(i).Args) {
+					nsql++
+					c.CallSites++
+					_, fld, ok := fieldAccess(resolve(callOf(i).Args[qi]))
+					want := map[string]string{"Store": "storeKeyQuery", "Load": "loadKeyQuery", "LoadLatest": "loadLatestQuery"}[f.Name()]
+					c.check(ok && fld == want && want != "", trimPkgDirs(shortName(f))+"/"+g.Name(), u.ipos(i), "statement = s."+fld, "a SQL statement other than the method's own query field reaches database/sql")
+				}
+				return
+			}
 			if g == nil || g.Pkg == nil || g.Pkg.Pkg.Path() != "database/sql" || g.Signature.Recv() == nil {
 				return
 			}
@@ -1003,9 +1016,33 @@ func fieldProvenanceSub(v ssa.Value, sub *factSub) string {
 		if call, ok := x.Tuple.(*ssa.Call); ok && staticIs(call, "(*encoding/base64.Encoding).DecodeString") && isStdEncoding(call.Call.Args[0]) && x.Index == 0 {
 			return "base64dec(" + ap(call.Call.Args[1]) + ")"
 		}
+		// a decoding helper of the package with (value, error) results and one non-nil value result: the value's
+		// provenance, read in the helper's frame
+		if call, ok := x.Tuple.(*ssa.Call); ok && x.Index == 0 && provenanceDepth < 2 {
+			if h := staticCallee(call); h != nil && h.Blocks != nil && h.Pkg != nil && strings.HasPrefix(h.Pkg.Pkg.Path(), modApp) {
+				var val ssa.Value
+				cnt := 0
+				for _, r := range returnsOf(h) {
+					if len(r.Results) == 0 {
+						continue
+					}
+					if rv := returnedValue(r, 0); !isNilValue(rv) {
+						cnt++
+						val = rv
+					}
+				}
+				if cnt == 1 {
+					provenanceDepth++
+					defer func() { provenanceDepth-- }()
+					return fieldProvenanceSub(val, composeSub(callSub(h, &call.Call), sub))
+				}
+			}
+		}
 	}
 	return ap(v)
 }
+
+var provenanceDepth int
 
 func isStdEncoding(v ssa.Value) bool {
 	ld, ok := resolve(v).(*ssa.UnOp)
